@@ -152,9 +152,11 @@ REGISTRY["C04"] = {
 }
 REGISTRY["C05"] = {
     "engine": "engine_ser",
-    "theorems": [(A + "RoundTripThm", "Api.C05_roundtrip_partial"), (A + "RoundTripThm", "Api.roundtrip_nocopy_off")],
-    "partial": "deserialize(serialize(v)) = v proved on the index-keyed fragment (primitives, lists, tuples, NewTypes, annotations) for every option "
-               "record; objects, mappings, sets, unions, enums, std-type conversions and json.dumps / loads transparency are decided by the engine",
+    "theorems": [(A + "RoundTripObjThm", "Api.C05_roundtrip_objects"), (A + "RoundTripObjThm", "Api.roundtripO_nocopy_off"),
+                 (A + "RoundTripThm", "Api.C05_roundtrip_partial"), (A + "RoundTripThm", "Api.roundtrip_nocopy_off")],
+    "partial": "deserialize(serialize(v)) = v proved for primitives, lists, tuples, NewTypes and dataclasses (distinct names and aliases, any nesting) under the default "
+               "serialization options and every deserialization option record (C05_roundtrip_objects), and on the index-keyed fragment for every serialization option "
+               "record; mappings, sets, unions, enums, TypedDicts / NamedTuples, std-type conversions and json.dumps / loads transparency are decided by the engine",
     "assumptions": MODEL_ASSUMPTIONS,
 }
 
